@@ -19,7 +19,7 @@ impl Adapter for HedgeAd {
         "hedge"
     }
     fn gen_cfg(&mut self, rng: &mut Rng, _size: Size) -> Value {
-        json!({"max": 1 + rng.below(4), "mode": *rng.pick(&["fixed", "fixed", "par", "dyn"]), "d": 1 + rng.below(3)})
+        json!({"max": 1 + rng.below(4), "mode": *rng.pick(&["fixed", "fixed", "par", "dyn"]), "d": 1 + rng.below(3), "lazy": if rng.pct(30) { 1 } else { 0 }})
     }
     fn build(&mut self, cfg: &Value, sim: &mut Sim) {
         let mut b = HedgeLayer::builder().max_hedged_attempts(cfg["max"].as_u64().unwrap() as usize);
@@ -56,6 +56,11 @@ impl Adapter for HedgeAd {
         p.w_complete = 3;
         p.max_adv = 2;
         p.spurious_pct = 0;
+        p.lazy = _cfg["lazy"].as_u64().unwrap_or(0) == 1;
+        if p.lazy {
+            p.w_adv = 8;
+            p.max_adv = 4;
+        }
         p
     }
     fn finale(&self, _cfg: &Value) -> Vec<Value> {
